@@ -770,6 +770,9 @@ func (e *enc) builtin(b *ssa.Builtin, c *ssa.CallCommon, site ssa.Instruction, p
 		}
 		m, k := args[0], args[1]
 		mt := c.Args[0].Type().Underlying().(*types.Map)
+		if k.S == "Iface" {
+			e.safety("map-key-hashable", or("(= (i-tag "+k.T+") 0)", "(comparableTag (i-tag "+k.T+"))"), pos)
+		}
 		dom, _, ln, _, _ := e.mapNames(mt)
 		nz := "(not (= " + m.T + " 0))"
 		had := and(nz, sel(e.get(dom), m.T, k.T))
